@@ -55,6 +55,7 @@ func (c12) Info(tier string) fw.Info {
 			"across the boundary, with allowCasts false and true (route api: all pairs; program and host routes: a seed-chosen sample that always " +
 			"contains conforming and non-conforming pairs); route letx additionally per leaf form {get,arrow,group,block,if,match,try} (quick: one seed-chosen form per backend, two per type; thorough: three per backend, six per type) " +
 			"for every type with an option at the top or directly inside a top-level list/object literal, pushing the pairs that agree with T outside their Some(..) contents, in a local let, as the base of a cast (`(<composite>) as T`, explicit; quick: the types alternate between the back ends) and (constant initialisers, typed values only; quick: a quarter of the types) in a global let; " +
+			"route json per (backend, type T; quick: one seed-chosen crossing of {as, let, letget (option types)}, thorough: all): the JSON-carriable candidates of T that contain a number, with one seed-chosen number respelled by a literal of a pool (the int limits and their neighbours, integer-looking literals of 19-30 digits beyond the int range, integers beyond 2^53, fraction/exponent spellings incl. integral ones, zeros, plus 24 seed-generated 18-21 digit and mantissa/exponent literals) and seed-chosen insignificant white space; the value the text denotes (reference number reader) is judged like on routes as / let; " +
 			"route seq per (backend, type T, source): source host = a builtin import whose declared type is T with `any` at a seed-chosen depth d (d=0 `any`, d=1 `[any]`/`?any`/`{a: any}`, ...) and whose value agrees with that declaration, source field (option types) = `ao.get(k)`/`ao->k` of an any-object; the same source is crossed twice (each crossing `as` or an annotated let, seed-chosen) into T and a seed-chosen one-step variation of T (other scalar, U<->?U, object->any-object at one position below the `any`), in either order, with a seed-chosen sample (quick 3, thorough 16 values) of the candidates of both types balanced over {conforms to both, one, none}; each crossing is judged on its own and the source is read again after both; " +
 			"route alias per (backend, type T): a program in which the alias name A is declared at a seed-chosen non-empty subset of {module (own or imported from a second module), body of main, a block in main, a block inside that block} (block kinds {block,if,else,for,loop,while,closure,match,try}, seed-chosen) standing for T and seed-chosen one-step variations of T (or of one child of T, the crossing then says `[A]`, `?A`, `{ a: A, .. }`), neighbouring declarations differing, optionally a second alias `type B = ..A..` next to one declaration; up to 4 crossings (`dyn as ..` or annotated let, seed-chosen) out of: in a helper function that sees the module only, before and after each level's declaration, after an inner block has ended; values (quick 3, thorough 12) of the host import `dyn: any` balanced over {the declarations disagree, all admit, none admits}; each crossing is judged against the type its name stands for according to a lexical-scope resolver (innermost enclosing declaration that precedes the crossing); " +
 			"route api also reads the operand again after every DeepCast; " +
@@ -66,6 +67,7 @@ func (c12) Info(tier string) fw.Info {
 			"a rejection names the offending path when its message contains the path of one of the reference offences in the notation of cast.go (`.field`, `[index]`, option steps optional); an offence at the operand itself needs no path; a missing/extra field is named by its path or by its quoted name",
 			"host boundary: a Go panic on the calling goroutine before any callee instruction executed counts as a refusal (DESIGN.md §3 C12)",
 			"program routes only carry JSON-expressible values (none, int, non-integral float, bool, str without escapes, list, object)",
+			"route json: a JSON number literal denotes its mathematical value; it is an int iff it is written as an integer (sign, digits) and lies in the 64-bit int range, otherwise the nearest float (an integer-looking literal beyond the int range has no int value); a literal with a fraction or exponent whose value is an integer in the int range may be read as float or as int (the observation must be sound for one reading); literals a float cannot hold (overflow) are outside the workload",
 			"route seq / route api: a cast does not modify the dynamic value it is applied to — the value read again after the crossing (any-object field, host value, DeepCast operand) is identical to what it was, whether the crossing admitted or rejected it; the second crossing is judged against the reference predicates for the ORIGINAL value",
 			"route seq, source host: the host is honest — the provided value has the declared type outside its `any` parts; nothing is assumed about the parts declared `any`",
 			"route host-args: refusal as on route host-arg (no callee instruction executes); an admitted call binds parameter i to the value validated for argument i: it has type Ti, equals argument i if that already had type Ti and its permitted conversion otherwise; an invocation whose arguments all conform but need a conversion may be refused (no explicit cast at the host boundary)",
@@ -120,10 +122,15 @@ func openConstructs() []string {
 type pairSpec struct {
 	V        vu.Val `json:"v"`
 	Explicit bool   `json:"x,omitempty"`
+	// Route json (jsonlit.go): the JSON text that is parsed, the respelled number literal in it, and
+	// the further values the text may denote (V is the primary reading).
+	Text string   `json:"j,omitempty"`
+	Lit  string   `json:"l,omitempty"`
+	Alt  []vu.Val `json:"alt,omitempty"`
 }
 
 type payload struct {
-	Route string  `json:"route"` // api | as | let | letget | letx | seq | alias | host-arg | host-args | host-ret
+	Route string  `json:"route"` // api | as | let | letget | letx | json | seq | alias | host-arg | host-args | host-ret
 	Lib   string  `json:"lib"`   // vm | tree
 	T     vu.Type `json:"t"`
 	// Gen mode (Pairs == nil): the worker enumerates valuni.Candidates(T, Width) x modes, leaves out
@@ -134,6 +141,7 @@ type payload struct {
 	Max   int      `json:"max,omitempty"`
 	Seed  uint64   `json:"seed,omitempty"`
 	// Route letx: leaf form (letx.go leafForms) and statement kind ("" = let).
+	// Route json: Stmt = the crossing (as | let | letget).
 	Form string `json:"form,omitempty"`
 	Stmt string `json:"stmt,omitempty"`
 	// Route seq: where the dynamic value lives (seq.go: field | host).
@@ -183,7 +191,7 @@ func constructs(route, lib string, v vu.Val, t vu.Type, explicit bool) []string 
 
 // isProgRoute: the crossing happens inside a generated program (`as` or an annotated let).
 func isProgRoute(route string) bool {
-	return route == "as" || route == "let" || route == "letget" || route == "letx"
+	return route == "as" || route == "let" || route == "letget" || route == "letx" || route == "json"
 }
 
 func hasAny(xs []string, ys []string) bool {
@@ -203,7 +211,7 @@ func routeModes(route, stmt string) []bool {
 		return []bool{false, true}
 	case "as":
 		return []bool{true}
-	case "letx":
+	case "letx", "json":
 		if stmt == "as" {
 			return []bool{true}
 		}
@@ -216,6 +224,8 @@ func routeCarries(route, stmt string, t vu.Type, v vu.Val) bool {
 	switch route {
 	case "letx":
 		return letxCarries(stmt, t, v)
+	case "json":
+		return jsonCarries(stmt, v)
 	case "as", "let":
 		_, ok := vu.JSONText(v)
 		return ok
@@ -237,6 +247,9 @@ func routeCarries(route, stmt string, t vu.Type, v vu.Val) bool {
 
 // enumerate lists the pairs of a gen-mode case (before sampling).
 func enumerate(p payload) []pairSpec {
+	if p.Route == "json" {
+		return enumerateJSON(p)
+	}
 	var out []pairSpec
 	for _, v := range vu.Candidates(p.T, p.Width) {
 		if !routeCarries(p.Route, p.Stmt, p.T, v) {
@@ -428,6 +441,30 @@ func (c12) Cases(tier string, seed uint64) []fw.Case {
 		}
 	}
 
+	// Route json (jsonlit.go): the spelling of the parsed JSON text is varied (number literals at and
+	// beyond the int limits, fraction / exponent forms, white space). One case per (type, back end),
+	// the crossing (as | let, option types also letget) seed-chosen. Own generator.
+	rj := fw.NewRng(seed ^ 0xC12150)
+	jsonMax := 4
+	if thorough {
+		jsonMax = 12
+	}
+	for _, t := range types {
+		for _, lib := range []string{"vm", "tree"} {
+			stmts := []string{"as", "let"}
+			if t.K == vu.TOpt {
+				stmts = append(stmts, "letget")
+			}
+			if thorough {
+				for _, st := range stmts {
+					add(payload{Route: "json", Lib: lib, T: t, Stmt: st, Width: width, Avoid: avoid, Max: jsonMax, Seed: rj.Next()})
+				}
+				continue
+			}
+			add(payload{Route: "json", Lib: lib, T: t, Stmt: stmts[rj.Intn(len(stmts))], Width: width, Avoid: avoid, Max: jsonMax, Seed: rj.Next()})
+		}
+	}
+
 	// Route seq (seq.go): a dynamic value that stays reachable (any-object field, host import declared
 	// with `any` at depth d) crossed twice in a row; route host-args (hostargs.go): host invocations and
 	// `spawn` with several differing arguments. Own generator again.
@@ -542,7 +579,7 @@ func (c12) Run(c fw.Case) (res fw.Result) {
 		for _, q := range pairs {
 			j.api(q)
 		}
-	case "as", "let", "letget", "letx":
+	case "as", "let", "letget", "letx", "json":
 		for _, q := range pairs {
 			j.prog(q)
 		}
@@ -594,6 +631,12 @@ func (c12) Run(c fw.Case) (res fw.Result) {
 	res.Nontrivial = j.admitted > 0 && j.rejected > 0
 	if p.Route == "letx" && len(pairs) > 0 {
 		j.cov(stmtName(p.Stmt) + "/" + letxTop(p.T) + "/" + p.Form)
+	}
+	if p.Route == "json" {
+		j.at = ""
+		for _, q := range pairs {
+			j.cov(p.Stmt + "/" + litClass(q.Lit))
+		}
 	}
 	for k := range j.cover {
 		res.Cover = append(res.Cover, k)
